@@ -134,13 +134,14 @@ Definition s32 (z : Z) : Z := if z <? 2147483648 then z else z - 4294967296.
 (* readMessageBodyLength: hand-walk of the flatbuffer Message table *)
 Definition body_len (m : bytes) : option Z :=
   let n := zlen m in
-  if n <? 8 then None else
+  if n <? 4 then None else
   let tp := rdle m 0 4 in
   if n <=? tp then None else
+  (* fbFieldPos (flatbuffers Table.Offset) for vtable slot 10 *)
   if n <? tp + 4 then None else
   let vp := tp - s32 (rdle m tp 4) in
-  if (vp <? 0) || (n <? vp + 6) then None else
-  if rdle m vp 2 <? 12 then Some 0 else
+  if (vp <? 0) || (n <? vp + 2) then None else
+  if rdle m vp 2 <=? 10 then Some 0 else            (* slot >= vtableSize: field absent *)
   if n <? vp + 12 then None else
   let fo := rdle m (vp + 10) 2 in
   if fo =? 0 then Some 0 else
@@ -202,7 +203,9 @@ Definition framing_ok (s : list ty) (full so : bytes) : bool :=
 Record ptr_case := {
   p_seg : bool; p_closed : bool; p_size : Z; p_name : bytes;
   p_rows : Z; p_md : meta;
-  p_slots : list (Z * Z)      (* regions that hold a batch of the pointer batch's own schema *)
+  p_schema : list ty;               (* the pointer batch's schema shape *)
+  p_slots : list (Z * Z * bool)     (* regions that hold a batch of that schema, and whether the 4
+                                       bytes after the region (inside the segment) are all zero *)
 }.
 Record rt_case := {
   r_seg : bool; r_rows : Z; r_bufsize : Z; r_thresh : Z;
@@ -223,9 +226,20 @@ Inductive obs :=
 | ORt (replaced werr : bool) (ptr_rows : Z) (ptr_md : meta) (stored : bytes) (r : robs)
 | OSkip (k : option Z).
 
-Definition covers (slots : list (Z * Z)) (off len : Z) : bool :=
-  existsb (fun s => (fst s =? off) && (snd s <=? len)) slots.
-Definition robs_of (slots : list (Z * Z)) (r : res) : robs :=
+(* A slot (o, l, e): the region (o, l) was written by MaybeWriteToShm; it decodes to the written
+   batch, and so does every region (o, l') with 0 <= e <= l' (e < 0: no longer region is predicted).
+   readIPCStream first runs checkIPCStreamFraming over the bytes handed to the reader: a complete
+   stream (fast / full layout) ends at its own EOS, so anything may follow it; a stripped region
+   is followed by the synthesized EOS, so the bytes after the record-batch message must themselves
+   be an end-of-stream word (4 zero bytes = legacy EOS) — otherwise the verdict is not predicted. *)
+Definition slot := (Z * Z * Z)%type.
+Definition eff_slots (schema : list ty) (slots : list (Z * Z * bool)) : list slot :=
+  map (fun s => match s with (o, l, z) =>
+         (o, l, if has_top_dict schema then (if z : bool then l + 4 else -1) else l + 1) end) slots.
+Definition covers (slots : list slot) (off len : Z) : bool :=
+  existsb (fun s => match s with (o, l, e) =>
+             (o =? off) && ((l =? len) || ((0 <=? e) && (e <=? len))) end) slots.
+Definition robs_of (slots : list slot) (r : res) : robs :=
   match r with
   | Unchanged => OUnchanged | EBadOff => OErrOff | EBadLen => OErrLen | EClosed => OErrClosed
   | EBounds => OErrOther | ERecovered => OErrRecovered
@@ -233,7 +247,7 @@ Definition robs_of (slots : list (Z * Z)) (r : res) : robs :=
   end.
 
 Definition run_ptr (c : ptr_case) : robs :=
-  robs_of (p_slots c) (resolve (p_seg c) (p_closed c) (p_size c) (p_name c) (p_rows c) (p_md c)).
+  robs_of (eff_slots (p_schema c) (p_slots c)) (resolve (p_seg c) (p_closed c) (p_size c) (p_name c) (p_rows c) (p_md c)).
 
 Definition ptr_md_of (off len : Z) (md : meta) : meta :=
   (c35_k_off, dec_str off) :: (c35_k_len, dec_str len) :: strip_ptr md.
@@ -301,7 +315,7 @@ Definition in_segment (size : Z) (offs lens : bytes) : option (Z * Z) :=
   end.
 
 Definition spec_ptr (seg closed : bool) (size : Z) (name : bytes) (rows : Z) (md : meta)
-    (slots : list (Z * Z)) (r : robs) : bool :=
+    (slots : list slot) (r : robs) : bool :=
   if negb seg || negb (is_ptr rows md) then match r with OUnchanged => true | _ => false end
   else match in_segment size (get c35_k_off md) (get c35_k_len md) with
        | Some (off, len) =>
@@ -321,7 +335,7 @@ Definition spec_ok (i : input) (o : obs) : bool :=
   match i, o with
   | IPtr c, OPtr r after_ok =>
       negb (size_ok (p_size c)) ||
-      (after_ok && spec_ptr (p_seg c) (p_closed c) (p_size c) (p_name c) (p_rows c) (p_md c) (p_slots c) r)
+      (after_ok && spec_ptr (p_seg c) (p_closed c) (p_size c) (p_name c) (p_rows c) (p_md c) (eff_slots (p_schema c) (p_slots c)) r)
   | IRt c, ORt replaced werr prows pmd stored r =>
       let same := negb replaced && negb werr
                   && spec_ptr (r_seg c) false (r_size c) (r_name c) (r_rows c) (r_md c) [] r in
